@@ -75,3 +75,74 @@ Theorem C01_path_unit : forall uw rootval sfx,
   sh_words uw (path_text rootval sfx) = Some [rootval ++ sfx].
 Proof. exact path_unit_words. Qed.
 Print Assumptions C01_path_unit.
+
+(* ---- channel F: define NAME ... endef and the recipe  $(call NAME,words,words...)  ---- *)
+From BFG Require Import Make.MakeCall Make.MakeCallProofs.
+
+(* For every rule name that needs no quoting, every list of argument word lists whose words are non-empty, free
+   of newlines, have balanced parentheses and no comma outside parentheses, and every body whose lines start with a
+   plain word and refer to the parameters 1..9 that the call supplies: bfg9000 writes the call and the define, and
+   GNU Make (arguments split at top-level commas before expansion, each expanded once, bound to the numbered
+   variables, body expanded, one sh command per line, recipe prefix removed) hands sh command lines that sh
+   splits into exactly the declared words, with each parameter replaced by the word list of that argument. *)
+Theorem C01_call_arg : forall uw us v func args body,
+  fname_ok uw (var_name us func) = true ->
+  args_ok args = true ->
+  v [c_comma] = [c_comma] ->
+  body <> [] -> forallb (body_line_ok uw (List.length args)) body = true ->
+  exists text e body_lines,
+    write uw us (call_frag us func (map words_items args)) SynShell QInfo = Some (text, e) /\
+    write_body_lines uw us (map body_line_items body) = Some body_lines /\
+    forall defs, defs (var_name us func) = Some (join_nl body_lines) ->
+      exists lines, recipe_call_lines v defs text = Some lines /\
+        Forall2 (fun l line => sh_words uw line = Some (line_words args l)) body lines.
+Proof. exact call_arg_roundtrip. Qed.
+Print Assumptions C01_call_arg.
+
+(* the two guards named in the design (no comma at all, balanced parentheses) are a special case of the guard *)
+Theorem C01_call_arg_guards : forall w,
+  negb (has_nl w) && match w with [] => false | _ => true end && no_comma w && parens_balanced w = true ->
+  call_word_ok w = true.
+Proof. exact simple_guards. Qed.
+Print Assumptions C01_call_arg_guards.
+
+Definition c01_v : vars := fun n => if str_eqb n [c_comma] then [c_comma] else [].
+Definition c01_body : list (bool * list bitem) :=
+  [(false, [BW (STR "cc"); BW (STR "-o"); BP 2; BP 1]); (true, [BW (STR "touch"); BW (STR "a b")])].
+(* what sh is handed and splits, or the empty list when Make stops with an error *)
+Definition c01_call_run (args : list (list str)) : list (option (list str)) :=
+  let nu := fun _ : char => false in
+  match write nu nu (call_frag nu (STR "RULE") (map words_items args)) SynShell QInfo,
+        write_body_lines nu nu (map body_line_items c01_body) with
+  | Some (text, _), Some bl =>
+    match recipe_call_lines c01_v (fun n => if str_eqb n (STR "RULE") then Some (join_nl bl) else None) text with
+    | Some lines => map (sh_words nu) lines
+    | None => []
+    end
+  | _, _ => []
+  end.
+Definition c01_call_want (args : list (list str)) : list (option (list str)) :=
+  map (fun l => Some (line_words args l)) c01_body.
+
+(* non-vacuity: words with quotes, dollar signs, blanks, hashes, balanced parentheses and a comma inside parentheses *)
+Example C01_call_arg_nonvacuous :
+  let args := [[STR "a.o"; STR "b c.o"; STR "it's"; STR "$x#y"; STR "f(a,b).o"]; [STR "out (1)"]] in
+  args_ok args = true /\ fname_ok (fun _ => false) (var_name (fun _ => false) (STR "RULE")) = true /\
+  forallb (body_line_ok (fun _ => false) (List.length args)) c01_body = true /\
+  c01_call_run args = c01_call_want args.
+Proof. repeat split; vm_compute; reflexivity. Qed.
+
+(* a comma outside parentheses: Make splits the argument at the comma of the written escape (dollar comma), the
+   linker is handed a truncated name (open finding C04-make-call-comma) *)
+Theorem C01_call_arg_comma_refuted : exists args,
+  forallb (forallb (fun w => negb (has_nl w) && parens_balanced w)) args = true /\
+  c01_call_run args <> c01_call_want args.
+Proof. exists [[STR "ma,in.o"]; [STR "prog"]]. split; [reflexivity|]. vm_compute. discriminate. Qed.
+Print Assumptions C01_call_arg_comma_refuted.
+
+(* an unbalanced parenthesis: unterminated call to function, Make stops (open finding C04-make-call-paren) *)
+Theorem C01_call_arg_paren_refuted : exists args,
+  forallb (forallb (fun w => negb (has_nl w) && no_comma w)) args = true /\
+  c01_call_run args <> c01_call_want args.
+Proof. exists [[STR "o(ne.o"]; [STR "prog"]]. split; [reflexivity|]. vm_compute. discriminate. Qed.
+Print Assumptions C01_call_arg_paren_refuted.
